@@ -12,7 +12,11 @@
   * Radau (`Proofs/RadauLemmas.lean`, control model tied by the X-radau trace co-simulation): `RadauCtl.pass_land`,
     `RadauCtl.run_success_at_xend`, `RadauCtl.start_land` — for every outcome of the factorisations, the Newton iteration, the
     error estimates and the callback, the landing flag is only raised on a step ending at xend and Success is reported only there.
+  * BDF (`Proofs/BdfLemmas.lean`, control model tied by the X-bdf trace co-simulation): `BdfCtl.limits_spec`, `BdfCtl.pass_land`,
+    `BdfCtl.run_success_at_xend`, `BdfCtl.start_inv` — the current point never passes xend, the landing step ends exactly
+    there, Success is reported only there, for every oracle.
 -/
+import IvpModel.Proofs.BdfLemmas
 import IvpModel.Proofs.RadauLemmas
 import IvpModel.Proofs.CtlField
 import IvpModel.Proofs.CtlRkField
